@@ -21,12 +21,12 @@ Open Scope Z_scope.
    endpoint.  The result is not empty, has no duplicate (address, pod) pair, and no duplicate
    address when equal addresses name equal pods (refuted without it: C14_each_once_refuted). *)
 Theorem C14_exact :
-  forall plus c ns name bp l,
-    resolve plus c ns name bp = Ok (l, false) ->
+  forall fx plus c ns name bp l,
+    resolve fx plus c ns name bp = Ok (l, false) ->
     exists svc sp P,
       find_svc c ns name = Some svc /\ s_ns svc = ns /\ s_name svc = name /\
-      find_svc_port bp (s_ports svc) = Some sp /\
-      (unnamed_ok bp svc -> spec_ref_port bp (s_ports svc) = Some sp) /\
+      find_svc_port fx bp (s_ports svc) = Some sp /\
+      (fx40 fx = true \/ unnamed_ok bp svc -> spec_ref_port bp (s_ports svc) = Some sp) /\
       target_resolves c svc sp P /\ P <> 0 /\
       l <> [] /\ NoDup l /\
       (forall x, In x (map fst l) <->
@@ -56,10 +56,10 @@ Print Assumptions C14_join_injective.
    ready = Some true -- not ready, unknown, or listed only by other services / other port
    numbers -- never receives traffic. *)
 Theorem C14_never_serves_unready_or_foreign :
-  forall plus c ns name bp l a,
-    resolve plus c ns name bp = Ok (l, false) ->
+  forall fx plus c ns name bp l a,
+    resolve fx plus c ns name bp = Ok (l, false) ->
     forall svc sp P,
-      find_svc c ns name = Some svc -> find_svc_port bp (s_ports svc) = Some sp -> target_resolves c svc sp P ->
+      find_svc c ns name = Some svc -> find_svc_port fx bp (s_ports svc) = Some sp -> target_resolves c svc sp P ->
       (forall sl e, In sl (c_slices c) -> sl_svc sl = s_name svc -> sl_ns sl = s_ns svc -> has_port_num sl P ->
                     In e (sl_eps sl) -> In a (e_addrs e) -> e_ready e <> Some true) ->
       ~ In (join a P) (map fst l).
@@ -92,50 +92,53 @@ Print Assumptions C14_exact_subselector.
    upstreams): the entry is the single server  join clusterIP port  of the referenced service
    port, bracketed like every other address. *)
 Theorem C14_cluster_ip :
-  forall plus c ns b svc sp,
+  forall fx plus c ns b svc sp,
     b_clusterip b = true -> b_kind b <> KTS -> backend_port_wf b ->
     find_svc c ns (b_svc b) = Some svc ->
-    is_external (resolve plus c ns (b_svc b) (b_port b)) = false ->
+    is_external (resolve fx plus c ns (b_svc b) (b_port b)) = false ->
     spec_ref_port (b_port b) (s_ports svc) = Some sp ->
-    endpoints_entry plus c ns b = ([join (s_clusterIP svc) (sp_port sp)], false).
+    endpoints_entry fx plus c ns b = ([join (s_clusterIP svc) (sp_port sp)], false).
 Proof. exact cluster_ip_entry. Qed.
 Print Assumptions C14_cluster_ip.
 
 (* ExternalName services (NGINX Plus only, and only without slices): the DNS name and the
    backend port number. *)
 Theorem C14_external_name :
-  forall plus c ns name bp l,
-    resolve plus c ns name bp = Ok (l, true) ->
-    exists svc, find_svc c ns name = Some svc /\ s_type svc = ExternalNameT /\ svc_slices c svc = [] /\
-                plus = true /\ l = [(join_plain (s_extname svc) (bp_num bp), "")].
+  forall fx plus c ns name bp l,
+    resolve fx plus c ns name bp = Ok (l, true) ->
+    exists svc port, find_svc c ns name = Some svc /\ s_type svc = ExternalNameT /\ svc_slices c svc = [] /\
+                plus = true /\ l = [(join_plain (s_extname svc) port, "")] /\
+                (fx42 fx = false \/ bp_name bp = "" -> port = bp_num bp) /\
+                (fx42 fx = true -> bp_name bp <> "" ->
+                 exists sp, find_svc_port fx bp (s_ports svc) = Some sp /\ port = sp_port sp).
 Proof. exact resolve_external. Qed.
 Print Assumptions C14_external_name.
 
 (* The Endpoints entry of the extended resource is that result (no cluster-IP mode). *)
 Theorem C14_entry_is_resolution :
-  forall plus c ns b,
+  forall fx plus c ns b,
     b_clusterip b = false -> b_subsel b = [] ->
-    endpoints_entry plus c ns b =
-      (addrs_of (resolve plus c ns (b_svc b) (b_port b)),
-       is_external (resolve plus c ns (b_svc b) (b_port b)) && plus).
+    endpoints_entry fx plus c ns b =
+      (addrs_of fx (resolve fx plus c ns (b_svc b) (b_port b)),
+       is_external (resolve fx plus c ns (b_svc b) (b_port b)) && plus).
 Proof. exact entry_is_resolution. Qed.
 Print Assumptions C14_entry_is_resolution.
 
 Theorem C14_entry_is_sub_resolution :
-  forall plus c ns b,
+  forall fx plus c ns b,
     b_clusterip b = false -> b_subsel b <> [] -> (b_kind b = KVS \/ b_kind b = KVSR) ->
-    fst (endpoints_entry plus c ns b) =
-      match resolve_sub c ns (b_svc b) (bp_num (b_port b)) (b_subsel b) with Ok l => map fst l | Err _ => [] end.
+    fst (endpoints_entry fx plus c ns b) =
+      match resolve_sub c ns (b_svc b) (bp_num (b_port b)) (b_subsel b) with Ok l => addr_list fx l | Err _ => [] end.
 Proof. exact entry_is_sub_resolution. Qed.
 Print Assumptions C14_entry_is_sub_resolution.
 
 (* With no usable endpoint the call fails (so the entry is empty) ... *)
 Theorem C14_no_usable_endpoint_fails :
-  forall plus c ns name bp svc sp P,
+  forall fx plus c ns name bp svc sp P,
     find_svc c ns name = Some svc -> svc_slices c svc <> [] ->
-    find_svc_port bp (s_ports svc) = Some sp -> target_resolves c svc sp P ->
+    find_svc_port fx bp (s_ports svc) = Some sp -> target_resolves c svc sp P ->
     (forall x, ~ ideal_member c svc P x) ->
-    exists e, resolve plus c ns name bp = Err e.
+    exists e, resolve fx plus c ns name bp = Err e.
 Proof. exact resolve_nothing_usable. Qed.
 Print Assumptions C14_no_usable_endpoint_fails.
 
@@ -152,7 +155,7 @@ Proof. exact rendered_placeholder. Qed.
 Print Assumptions C14_empty_is_error_backend.
 
 Theorem C14_external_flag_only_plus :
-  forall plus c ns b, snd (endpoints_entry plus c ns b) = true -> plus = true.
+  forall fx plus c ns b, snd (endpoints_entry fx plus c ns b) = true -> plus = true.
 Proof. exact entry_external_only_plus. Qed.
 Print Assumptions C14_external_flag_only_plus.
 
@@ -193,18 +196,43 @@ Print Assumptions C14_spec_decides_subselector.
 (* ... and the model passes it on every cluster for numeric and defaulted target ports under the
    two premises of C14_exact. *)
 Theorem C14_model_meets_spec :
-  forall plus c ns b svc sp,
+  forall fx plus c ns b svc sp,
     b_clusterip b = false -> b_subsel b = [] ->
     find_svc c ns (b_svc b) = Some svc ->
     (s_type svc = ClusterIPT \/ svc_slices c svc <> []) ->
-    unnamed_ok (b_port b) svc ->
+    (fx40 fx = true \/ unnamed_ok (b_port b) svc) ->
     spec_ref_port (b_port b) (s_ports svc) = Some sp ->
     (match sp_target sp with TUnset => sp_port sp <> 0 | TNum n => n <> 0 | TNamed _ => False end) ->
-    (forall P, refs_functional c svc P) ->
+    (fx41 fx = true \/ forall P, refs_functional c svc P) ->
     exists ideal, ideal_entry plus c ns b = IExact ideal /\
-                  exact_ok ideal (fst (endpoints_entry plus c ns b)) = true.
+                  exact_ok ideal (fst (endpoints_entry fx plus c ns b)) = true.
 Proof. exact entry_meets_ideal. Qed.
 Print Assumptions C14_model_meets_spec.
+
+(* With fix F41 every Endpoints entry lists each address once, on every cluster (no premise
+   on the pod names any more). *)
+Theorem C14_entry_each_once :
+  forall fx plus c ns b, fx41 fx = true -> NoDup (fst (endpoints_entry fx plus c ns b)).
+Proof. exact entry_each_once. Qed.
+Print Assumptions C14_entry_each_once.
+
+(* With fix F40 the port the code finds is the referenced one, on every service. *)
+Theorem C14_port_match_repaired :
+  forall fx bp svc, (fx40 fx = true \/ unnamed_ok bp svc) ->
+    find_svc_port fx bp (s_ports svc) = spec_ref_port bp (s_ports svc).
+Proof. exact find_svc_port_spec. Qed.
+Print Assumptions C14_port_match_repaired.
+
+(* With fix F42 the entry of an Ingress backend on an ExternalName service (NGINX Plus) is the
+   ideal one also when the backend references the port by name. *)
+Theorem C14_external_name_repaired :
+  forall fx c ns b svc,
+    fx42 fx = true -> b_kind b = KIng -> b_clusterip b = false ->
+    find_svc c ns (b_svc b) = Some svc -> svc_external c svc = true ->
+    exists ideal, ideal_entry true c ns b = IExact ideal /\
+                  exact_ok ideal (fst (endpoints_entry fx true c ns b)) = true.
+Proof. exact external_entry_meets_ideal. Qed.
+Print Assumptions C14_external_name_repaired.
 
 (* ---------------- what the code does NOT satisfy (each reproduced on the real code by the
    corpus cases of the harness) ---------------- *)
@@ -215,21 +243,23 @@ Print Assumptions C14_model_meets_spec.
 Theorem C14_named_port_refuted :
   forall pods, Permutation w_pods pods ->
     exists x, ideal_member_by_name (w_named pods) (w_svc "http" 80 (TNamed "web")) "http" x /\
-              ~ In x (addrs_of (resolve false (w_named pods) "ns" "web" {| bp_name := ""; bp_num := 80 |})).
+              (forall fx, ~ In x (addrs_of fx (resolve fx false (w_named pods) "ns" "web" {| bp_name := ""; bp_num := 80 |}))).
 Proof. exact named_port_refuted. Qed.
 Print Assumptions C14_named_port_refuted.
 
 (* the same address listed under two pod names is written twice *)
 Theorem C14_each_once_refuted :
-  exists l, resolve false w_dup "ns" "web" {| bp_name := ""; bp_num := 80 |} = Ok (l, false) /\
-            map fst l = ["10.0.0.1:80"; "10.0.0.1:80"] /\ ~ NoDup (map fst l).
+  exists l, resolve legacy false w_dup "ns" "web" {| bp_name := ""; bp_num := 80 |} = Ok (l, false) /\
+            addr_list legacy l = ["10.0.0.1:80"; "10.0.0.1:80"] /\ ~ NoDup (addr_list legacy l) /\
+            addr_list repaired l = ["10.0.0.1:80"].
 Proof. exact each_once_refuted. Qed.
 Print Assumptions C14_each_once_refuted.
 
 (* an unnamed service port matches every backend port number (the sub-selector variant does not) *)
 Theorem C14_port_match_refuted :
   spec_ref_port {| bp_name := ""; bp_num := 9999 |} (s_ports (w_svc "" 80 (TNum 8080))) = None /\
-  addrs_of (resolve false w_unnamed "ns" "web" {| bp_name := ""; bp_num := 9999 |}) = ["10.0.0.1:8080"] /\
+  addrs_of legacy (resolve legacy false w_unnamed "ns" "web" {| bp_name := ""; bp_num := 9999 |}) = ["10.0.0.1:8080"] /\
+  resolve repaired false w_unnamed "ns" "web" {| bp_name := ""; bp_num := 9999 |} = Err ENoPort /\
   resolve_sub w_unnamed "ns" "web" 9999 [("version", "v1")] = Err ENoPort.
 Proof. exact port_match_refuted. Qed.
 Print Assumptions C14_port_match_refuted.
@@ -242,7 +272,7 @@ Print Assumptions C14_vsr_cluster_ip_sprintf_refuted.
 
 (* an ExternalName service referenced by port name is written with port 0 *)
 Theorem C14_externalname_named_port_refuted :
-  fst (endpoints_entry true w_ext "ns" {| b_kind := KIng; b_svc := "web"; b_port := {| bp_name := "http"; bp_num := 0 |};
+  fst (endpoints_entry legacy true w_ext "ns" {| b_kind := KIng; b_svc := "web"; b_port := {| bp_name := "http"; bp_num := 0 |};
                                           b_clusterip := false; b_subsel := [] |}) = ["ext.example.com:0"] /\
   ideal_entry true w_ext "ns" {| b_kind := KIng; b_svc := "web"; b_port := {| bp_name := "http"; bp_num := 0 |};
                                  b_clusterip := false; b_subsel := [] |} = IExact ["ext.example.com:80"].
@@ -273,7 +303,7 @@ Definition ex_cluster : Cluster :=
                    p_ports := [{| cp_name := "web"; cp_num := 8080; cp_proto := "TCP" |}] |}] |}.
 
 Example C14_nonvacuous_exact :
-  resolve false ex_cluster "ns" "web" {| bp_name := "http"; bp_num := 0 |} =
+  resolve repaired false ex_cluster "ns" "web" {| bp_name := "http"; bp_num := 0 |} =
   Ok ([("[fd00::2]:8080", "web-1"); ("10.0.0.1:8080", "web-0")], false).
 Proof. vm_compute. reflexivity. Qed.
 
@@ -282,13 +312,13 @@ Example C14_nonvacuous_subselector :
 Proof. vm_compute. reflexivity. Qed.
 
 Example C14_nonvacuous_cluster_ip :
-  endpoints_entry false ex_cluster "ns"
+  endpoints_entry repaired false ex_cluster "ns"
     {| b_kind := KVSR; b_svc := "web"; b_port := {| bp_name := ""; bp_num := 80 |}; b_clusterip := true; b_subsel := [] |}
   = (["[fd00:10:96::1]:80"], false).
 Proof. vm_compute. reflexivity. Qed.
 
 Example C14_nonvacuous_placeholder :
-  rendered false false KVS (endpoints_entry false ex_cluster "ns"
+  rendered false false KVS (endpoints_entry repaired false ex_cluster "ns"
     {| b_kind := KVS; b_svc := "web"; b_port := {| bp_name := ""; bp_num := 81 |}; b_clusterip := false; b_subsel := [] |})
   = ["unix:/var/lib/nginx/nginx-502-server.sock"].
 Proof. vm_compute. reflexivity. Qed.
